@@ -1,6 +1,6 @@
 /- Dispatch of the line protocol operations onto the executable models. -/
 import OlVerif.Json
-import OlVerif.Unparse.Model
+import OlVerif.Unparse.StrLit
 
 namespace OlVerif
 open Lean
@@ -40,10 +40,24 @@ def opEscape (j : Json) : Json :=
     | .error e => errJ e
   | _, _ => errJ "escape: bad arguments"
 
+/-- reference decoder: `t` = text after the opening quote -/
+def opDecode (j : Json) : Json :=
+  match j.getObjVal? "t", j.getObjVal? "q" with
+  | .ok (.arr a), .ok (.str q) =>
+    match a.toList.mapM jNat with
+    | .ok cps =>
+      match decodeStr (if q == "'" then .sq else .dq) (cps.length + 1) cps with
+      | some (s, rest) => Json.mkObj [("s", .arr (s.map (fun (n : Nat) => (n : Json))).toArray),
+                                      ("rest", (rest.length : Nat))]
+      | none => Json.mkObj [("s", .null)]
+    | .error e => errJ e
+  | _, _ => errJ "decode: bad arguments"
+
 def handle (j : Json) : Json :=
   match j.getObjVal? "op" with
   | .ok (.str "unparse") => opUnparse j
   | .ok (.str "escape") => opEscape j
+  | .ok (.str "decode") => opDecode j
   | .ok (.str "ping") => Json.mkObj [("pong", .bool true)]
   | _ => errJ "unknown op"
 
